@@ -39,6 +39,15 @@ class Selectable(Node):
     def __init__(self, alias: str) -> None:
         self.alias = alias
 
+    # True while the alias is one a statement gave by itself (sq0, sq1 ..) to an un-aliased subquery / set operation
+    _automatic_alias = False
+
+    def _derived_by_builder_call(self) -> None:
+        # a builder derived from an automatically aliased one is a new, un-aliased object: the name stays with the original
+        if self._automatic_alias:
+            self.alias = None
+            self._automatic_alias = False
+
     @builder
     def as_(self, alias: str) -> "Self":  # type:ignore[return]
         self.alias = alias
@@ -1038,7 +1047,7 @@ class QueryBuilder(Selectable, Term):  # type:ignore[misc]
         """
         def _replace(term: Any) -> Any:
             return (
-                term.replace_table(current_table, new_table)
+                _keep_automatic_alias(term, term.replace_table(current_table, new_table))
                 if isinstance(term, (Term, Join))
                 else term
             )
@@ -1543,14 +1552,7 @@ class QueryBuilder(Selectable, Term):  # type:ignore[misc]
         return number
 
     def _needs_automatic_alias(self, item: Any) -> bool:
-        if item.alias is None:
-            return True
-        # an automatic alias inherited from the builder this one was derived from (q2 = q.where(..) after q served as
-        # a source elsewhere) is given anew when another source of this statement answers to it already
-        return bool(getattr(item, "_automatic_alias", False)) and any(
-            source is not item and getattr(source, "alias", None) == item.alias
-            for source in self._from + [j.item for j in self._joins]
-        )
+        return item.alias is None
 
     def _tag_subquery(self, subquery: Self) -> None:
         number = self._free_subquery_number(self._subquery_count)
@@ -2079,8 +2081,16 @@ def _replace_join_item(item: Any, current_table: Table | None, new_table: Table 
         # only tables compare by value; a set operation inherits Term.__eq__, which builds a criterion
         return _replacement_for(item, current_table, new_table) if item == current_table else item
     if isinstance(item, Term):
-        return item.replace_table(current_table, new_table)
+        return _keep_automatic_alias(item, item.replace_table(current_table, new_table))
     return item
+
+
+def _keep_automatic_alias(source: Any, replaced: Any) -> Any:
+    """A source rewritten by replace_table is still the statement's sqN (a builder call alone would start un-aliased)."""
+    if getattr(source, "_automatic_alias", False) is True:
+        replaced.alias = source.alias
+        replaced._automatic_alias = True
+    return replaced
 
 
 class Join:
